@@ -179,6 +179,18 @@ class C03(Check):
 
         nb, npatch = int(rng.integers(1, 9)), int(rng.integers(2, 13))
         cf = gen.gen_corrfunc(rng, nb, npatch, case["auto"], members=case["members"])
+        if case_bits(case, "signed-weight-sums") & 1:
+            # weight sums of either sign (signed weights are legal): small integers, so sums and products are exact;
+            # leave-one-out normalisations may be negative or zero while the total is positive (round 7)
+            srng = np.random.default_rng([case["seed"], 77])
+            parts = {}
+            for k, v in cf.to_dict().items():
+                shape = v.sum_weights.sum_weights1.shape
+                sw1 = srng.integers(-6, 12, shape).astype(float)
+                sw2 = sw1.copy() if case["auto"] else srng.integers(-6, 12, shape).astype(float)
+                parts[k] = type(v)(v.counts, type(v.sum_weights)(cf.binning, sw1, sw2, auto=case["auto"]))
+            cf = type(cf)(**parts)
+            counters["signed_weight_cases"] = counters.get("signed_weight_cases", 0) + 1
         info = {k: check_counts_container(nc, bad, counters) for k, nc in cf.to_dict().items()}
         s = cf.sample()
         # estimator sample-wise on the deletion-oracle terms
